@@ -474,6 +474,88 @@ func zeroFamily(r *hx.Rand) {
 	}
 }
 
+// aliasCase: 2-4 samples that are windows (adjacent, with gaps, with spare capacity behind them) of ONE
+// backing array, as a caller reading measurements into a flat buffer would build them; a sequence
+// of Summary / Compare calls. Summaries and comparisons are functions of the samples' values and must
+// not modify their inputs: afterwards every window still holds its values (sorted), and every result
+// equals the result of the same call on freshly copied samples.
+func aliasCase(r *hx.Rand) {
+	defer func() {
+		if e := recover(); e != nil {
+			panicCase("kind=alias", "alias", e)
+		}
+	}()
+	k := 2 + r.Intn(3)
+	var wins [][2]int
+	pos := r.Intn(2)
+	for i := 0; i < k; i++ {
+		n := 2 + r.Intn(6)
+		wins = append(wins, [2]int{pos, pos + n})
+		pos += n + []int{0, 0, 1, 2}[r.Intn(4)]
+	}
+	buf := make([]float64, pos+r.Intn(3))
+	for i := range buf {
+		switch r.Intn(3) {
+		case 0:
+			buf[i] = float64(r.Intn(6))
+		case 1:
+			buf[i] = float64(r.Intn(400)) / 8
+		default:
+			buf[i] = 100 + float64(r.Intn(40))/4
+		}
+	}
+	orig := append([]float64(nil), buf...)
+	alpha := hx.Pick(r, []float64{0.05, 0.01, 0.5})
+	thr := &benchmath.Thresholds{CompareAlpha: alpha}
+	samples := make([]*benchmath.Sample, k)
+	for i, w := range wins {
+		samples[i] = benchmath.NewSample(buf[w[0]:w[1]], thr) // sorts its window in place; cap reaches to the end of buf
+	}
+	fresh := func(i int) *benchmath.Sample {
+		w := wins[i]
+		return benchmath.NewSample(append([]float64(nil), orig[w[0]:w[1]]...), thr)
+	}
+	sumS := func(o benchmath.Summary) string {
+		return fmt.Sprintf("%s:%s:%s:%s:%d", raw(o.Center), raw(o.Lo), raw(o.Hi), raw(o.Confidence), len(o.Warnings))
+	}
+	cmpS := func(o benchmath.Comparison) string {
+		return fmt.Sprintf("%s:%d:%d:%s:%d", raw(o.P), o.N1, o.N2, raw(o.Alpha), len(o.Warnings))
+	}
+	var ops, ra, rf []string
+	nops := 4 + r.Intn(10)
+	for o := 0; o < nops; o++ {
+		a := hx.Pick(r, anames)
+		asm := assumptions[a]
+		i := r.Intn(k)
+		if r.Chance(1, 3) {
+			conf := hx.Pick(r, []float64{0.5, 0.9, 0.95})
+			ops = append(ops, fmt.Sprintf("S.%s.%d", a, i))
+			ra = append(ra, sumS(asm.Summary(samples[i], conf)))
+			rf = append(rf, sumS(asm.Summary(fresh(i), conf)))
+		} else {
+			j := r.Intn(k)
+			if j == i {
+				j = (i + 1) % k
+			}
+			ops = append(ops, fmt.Sprintf("C.%s.%d.%d", a, i, j))
+			ra = append(ra, cmpS(asm.Compare(samples[i], samples[j])))
+			rf = append(rf, cmpS(asm.Compare(fresh(i), fresh(j))))
+		}
+	}
+	var ws, before, after []string
+	for i, w := range wins {
+		ws = append(ws, fmt.Sprintf("%d:%d", w[0], w[1]))
+		before = append(before, strings.ReplaceAll(list(orig[w[0]:w[1]]), ",", "+"))
+		after = append(after, strings.ReplaceAll(list(samples[i].Values), ",", "+"))
+	}
+	hx.Printf("case %d kind=alias buflen=%d win=%s before=%s after=%s ops=%s ra=%s rf=%s tag=alias+k%d\n", id, len(buf),
+		strings.Join(ws, ","), strings.Join(before, ","), strings.Join(after, ","), strings.Join(ops, ","),
+		strings.Join(ra, ","), strings.Join(rf, ","), k)
+	hx.Printf("obs %d windows=%d ops=%d\n", id, k, nops)
+	hx.Printf("sobs %d intact=ok same=ok\n", id)
+	id++
+}
+
 // nanFamily (K only): comparisons of samples containing NaN under the rank-based and the exact model.
 func nanFamily(r *hx.Rand) {
 	nanv := math.NaN()
@@ -945,6 +1027,10 @@ func main() {
 	needFamily(hx.NewRand(1314))
 	zeroFamily(hx.NewRand(1315))
 	nanFamily(hx.NewRand(1316))
+	ra := hx.NewRand(1317)
+	for i := hx.N(400, 4000); i > 0; i-- {
+		aliasCase(ra)
+	}
 
 	renderCases(r, hx.N(4000, 40000))
 
